@@ -66,7 +66,7 @@ def expected_form(field, line):
     return line
 
 
-def check_rendered(files, blocks, backend="atlas"):
+def check_rendered(files, blocks, backend="atlas", baseline=None):
     """blocks: list of (name, {field: [lines]}) that must be present (already de-duplicated by the caller).
     Returns list of problems."""
     problems = []
@@ -78,34 +78,55 @@ def check_rendered(files, blocks, backend="atlas"):
         b = next(i for i, l in enumerate(src) if l.strip() == '#include "TTree.h"')
         regs = {"body_includes": ("Analyzer.cc", a + 1, b, src)}
     all_text = {n: t for n, t in files.items()}
+    # total multiplicity of every (field, line text) over all blocks: a line requested n times must appear n times
+    want_count = Counter()
     for name, fields in blocks:
         for field, lines in fields.items():
-            if field not in regs:
+            for ln in lines:
+                want_count[(field, ln)] += 1
+    for (field, ln), n in want_count.items():
+        if field not in regs:
+            continue
+        fname, lo, hi, flines = regs[field]
+        region = flines[lo:hi]
+        want = expected_form(field, ln).strip()
+        if field == "link_libraries":
+            body = region[0]
+            body = body[body.index("AnaAlgorithmLib") + len("AnaAlgorithmLib"):]
+            cnt = body.count(" " + ln + " ")
+        else:
+            cnt = sum(1 for l in region if l.strip() == want)
+        if baseline is not None and field != "link_libraries":
+            # lines the template / generated code itself puts into the region (e.g. a closing brace) do not count
+            bregs = regions_atlas(baseline) if backend == "atlas" else None
+            if bregs is not None:
+                _, blo, bhi, bl = bregs[field]
+                cnt -= sum(1 for l in bl[blo:bhi] if l.strip() == want)
+        if cnt != n:
+            problems.append(f"{field}: line {ln!r} appears {cnt} times in its region of {fname}, requested {n} times")
+        elif len(ln) > 3:
+            total = sum(t.count(ln) for t in all_text.values())
+            if baseline is not None:
+                total -= sum(t.count(ln) for t in baseline.values())
+            # a line that is a substring of another requested line is counted there too
+            total -= sum(m * other.count(ln) for (f2, other), m in want_count.items() if other != ln and ln in other)
+            if total != cnt:
+                problems.append(f"{field}: line {ln!r} also appears outside its region ({total} occurrences in the package)")
+    # the lines of one block keep their order (they form a subsequence of the region)
+    for name, fields in blocks:
+        for field, lines in fields.items():
+            if field not in regs or field == "link_libraries":
                 continue
             fname, lo, hi, flines = regs[field]
-            region = flines[lo:hi]
-            positions = []
+            region = [l.strip() for l in flines[lo:hi]]
+            pos = 0
             for ln in lines:
                 want = expected_form(field, ln).strip()
-                if field == "link_libraries":
-                    body = region[0]
-                    body = body[body.index("AnaAlgorithmLib") + len("AnaAlgorithmLib"):]
-                    # tokens are separated by single spaces added by the template; search as substring with delimiters
-                    cnt = body.count(" " + ln + " ")
-                    pos = body.find(" " + ln + " ")
-                else:
-                    hits = [i for i, l in enumerate(region) if l.strip() == want]
-                    cnt = len(hits)
-                    pos = hits[0] if hits else -1
-                if cnt != 1:
-                    problems.append(f"{field}: line {ln!r} of block {name} appears {cnt} times in its region of {fname}")
-                positions.append(pos)
-                # nowhere else in any file
-                total = sum(t.count(ln) for t in all_text.values())
-                if total != max(cnt, 1) and cnt == 1:
-                    problems.append(f"{field}: line {ln!r} of block {name} also appears outside its region ({total} occurrences in the package)")
-            if all(p >= 0 for p in positions) and positions != sorted(positions):
-                problems.append(f"{field}: lines of block {name} are out of order")
+                try:
+                    pos = region.index(want, pos) + 1
+                except ValueError:
+                    problems.append(f"{field}: lines of block {name} are not all present in order (stuck at {ln!r})")
+                    break
     return problems
 
 
@@ -169,7 +190,11 @@ def run_case(args):
         return cid, "bad", {"symptom": "spurious-error" if exp[0] == "ok" else "wrong-exception", "detail": f"{pkg.exc_type}: {pkg.exc_msg}"[:300], "query": q}
     if exp[0] == "error":
         return cid, "bad", {"symptom": "missing-error", "detail": exp[1], "query": q}
-    probs = check_rendered(pkg.files, exp[1], backend)
+    base_q = wrap([], ())
+    if backend != "atlas":
+        base_q = base_q.replace("e.Jets('A')", "e.Muons('A')")
+    base = translate(base_q, backend)
+    probs = check_rendered(pkg.files, exp[1], backend, baseline=base.files if base.ok else None)
     # no unrendered directive may survive unless it was injected as data
     injected = "".join(l for _, fs in exp[1] for ls in fs.values() for l in ls)
     for fn, txt in pkg.files.items():
@@ -198,6 +223,19 @@ def build_cases(tier):
                 continue
             cases.append((cid, [block_md("blk", {f: [mk_line(f"S{i}_{j}_", sp), mk_line(f"S{i}_{j}b_", sp)]})], (0,), "atlas"))
             cid += 1
+    # repeated line texts: inside one block and across two differently named blocks (a closing brace, a repeated statement)
+    for i, f in enumerate(FIELDS):
+        if f == "link_libraries":
+            continue
+        rep1 = block_md("blk", {f: [f"R{i}_open {{", f"R{i}_a;", "}", f"R{i}_open2 {{", f"R{i}_a;", "}"]})
+        cases.append((cid, [rep1], (0,), "atlas"))
+        cid += 1
+        two_a = block_md("n1", {f: [f"Q{i}_x {{", f"Q{i}_shared;", "}"]})
+        two_b = block_md("n2", {f: [f"Q{i}_y {{", f"Q{i}_shared;", "}"]})
+        for order in ((two_a, two_b), (two_b, two_a)):
+            for pos in ((0, 0), (0, 1), (1, 0)):
+                cases.append((cid, list(order), pos, "atlas"))
+                cid += 1
     # CMS: body includes
     for backend in ("cms_aod", "cms_miniaod"):
         for j, sp in enumerate(["", "<vector>", "{{ x }}"]):
